@@ -43,7 +43,8 @@ func (p *parser) parseHost(u *Url, parser *parser, input string, isNotSpecial bo
 				return "", err
 			}
 		}
-		input = strings.Trim(input, "[]")
+		// remove exactly the leading "[" and the trailing "]"
+		input = strings.TrimSuffix(strings.TrimPrefix(input, "["), "]")
 		return p.parseIPv6(u, newInputString(input))
 	}
 	if isNotSpecial {
